@@ -35,7 +35,7 @@ func init() {
 			"R3: on the ErrExist edge the loop waits with WaitForVersionChange(ctx,key,v), v the version returned by the failed Create, and goes round again on a fresh ctx.Err(). " +
 			"R4: the token helpers return nil only on the 'still open' edge of a shutdown test made after taking the token. R5: the local wait has a ctx.Done() case returning ctx.Err(); Shutdown closes the done channel. " +
 			"R6: the lease renewal writes only by CasByVersion (it never re-creates a record: ErrNotExist also means the holder unlocked). R7: an attempt that gave the token back reports failure. " +
-			"W1/W2: in the in-memory store every mutation notifies the key's waiters and the waiter's check and registration are one critical section (no lost wake-up at the storage level).",
+			"W1/W2: in the in-memory store every mutation notifies the key's waiters and the waiter's check and registration are one critical section (no lost wake-up at the storage level). R8: on every path from the return of the storage wait to the next Create the shutdown channel is tested and found open (paths enumerated with phi operands resolved per path). W7: a waiter registers again on its entry only after the previous registration was withdrawn or consumed by a notification.",
 		NotDecided: "absence of lost wake-ups over all schedules as such; fairness.",
 	})
 	register(&Check{
@@ -46,7 +46,7 @@ func init() {
 		Explanation: "L1: every record passed to Create/CasByVersion has ExpiresAt = now + lease. L2: between the Create success edge and the success exit a renewal is armed with timeout.Call(fn, lease/k), k>=2, fn reaching the renewal routine with that Create's version, and stored in the Locker's timer slot. " +
 			"L3: the renewal's CAS success edge re-arms with the new version; exits after a definitive loss (ErrNotExist/ErrConflict) arm nothing and write nothing. L4: every exit of the renewal that arms nothing is dominated by a positive class test for ErrNotExist or ErrConflict (a transient error must not end the chain). " +
 			"L8: the renewal writes only by CasByVersion; a retry after an error is armed only when both ErrNotExist and ErrConflict were excluded. L5: the renewal is a CAS on the Locker's key with the tenure's version. L6: the renewal does not use the acquisition's context. L7: Unlock cancels the armed timer before deleting the record. " +
-			"T1-T7: the timer keeps heap indices current and Cancel is guarded (C12 rules). U1-U6: a queued renewal is not slept through (C13 rules). E1/E2: the in-memory store treats an expired record as absent and bounds a parked waiter by the expiry (dead-holder clause).",
+			"T1-T7: the timer keeps heap indices current and Cancel is guarded (C12 rules). U1-U6: a queued renewal is not slept through (C13 rules). E1/E2: the in-memory store treats an expired record as absent and bounds a parked waiter by the expiry (dead-holder clause). L9: the renewal cancels the timer it has just armed under a condition that reads the Locker's held flag / tenure - the compare-and-swap of the timer slot alone does not see an Unlock (open finding).",
 		NotDecided: "every timing statement ('within about one lease period'), clock behaviour.",
 	})
 }
@@ -689,10 +689,62 @@ func runC04(c *Ctx) {
 	c.renewalOnlyCAS(r, "C04.R6")
 	c.noSuccessAfterGiveBack(r, "C04.R7")
 
+	// R8 shutdown is re-checked after every storage wait: an attempt that was parked in WaitForVersionChange when
+	// Shutdown happened must not go back to Create - on every path from the return of the wait to the next Create the
+	// shutdown test (chans.IsOpened(done), decided "open") lies in between, or the path goes through a token helper
+	// (which tests, R4). Paths are enumerated with phi operands resolved per path, so "the loop variable is the fresh
+	// ctx.Err()" is followed precisely.
+	isShutdownTest := func(v ssa.Value) bool {
+		call, ok := v.(*ssa.Call)
+		return ok && strings.HasSuffix(ir.CalleeFullName(call), "chans.IsOpened") && len(call.Call.Args) == 1 && ir.LoadedField(call.Call.Args[0]) == r.doneF
+	}
+	nR8 := 0
+	for fn := range r.acquiringFns(c) {
+		var tests []ssa.Value
+		ir.Instrs(fn, func(in ssa.Instruction) {
+			if v, ok := in.(ssa.Value); ok && isShutdownTest(v) {
+				tests = append(tests, v)
+			}
+		})
+		ir.Instrs(fn, func(in ssa.Instruction) {
+			w := r.storageCall(in, "WaitForVersionChange")
+			if w == nil {
+				return
+			}
+			nR8++
+			q := ir.PathQuery{Fn: fn, From: in,
+				Stop: func(x ssa.Instruction) bool {
+					if call, ok := x.(*ssa.Call); ok {
+						if cal := ir.StaticCallee(call); cal != nil && r.tokenHelpers[cal] {
+							return true
+						}
+					}
+					return false
+				},
+				Target: func(x ssa.Instruction, val *ir.Valuation) bool {
+					if r.storageCall(x, "Create") == nil {
+						return false
+					}
+					for _, t := range tests {
+						if k, ok := val.Known(t); ok && k {
+							return false
+						}
+					}
+					return true
+				}}
+			c.pathVerdict("C04.R8", fn, "shutdown is re-checked between the storage wait and the next Create", in, q,
+				"an attempt that returns from the storage wait goes back to Create without testing the shutdown channel: a caller parked in WaitForVersionChange when Shutdown() ran acquires the lock afterwards")
+		})
+	}
+	if nR8 == 0 {
+		c.R.Errorf("C04.R8 matched no storage wait in an acquiring function")
+	}
+
 	// W: the storage-level hand-off (in-memory)
 	im := resolveInmemRoles(c)
 	c.inmemNotifyAfterMutate(im, "C04.W1")
 	c.inmemWaitRules(im, "C04.W2", "C04.W3", "", "", "C04.W6")
+	c.inmemRegistrationBalance(im, "C04.W7")
 }
 
 // acquiringFns returns the locker functions that contain the Create retry logic.
@@ -889,6 +941,107 @@ func runC05(c *Ctx) {
 	}
 
 	c.renewalOnlyCAS(r, "C05.L8")
+
+	// L9: a renewal that is in flight while the holder unlocks arms nothing. Unlock can cancel only the timer it finds in
+	// the slot; a renewal whose timer has already fired arms its successor after that. The renewal therefore has to look
+	// at the tenure itself: the timer it has just armed is cancelled under a condition that depends on the Locker's
+	// held flag / tenure (an atomic load of a Locker field, or a Locker method reading one) - the compare-and-swap of the
+	// timer slot alone does not see an Unlock, which leaves the slot untouched.
+	{
+		fn := r.renewal
+		lockerLoads := func(v ssa.Value) bool {
+			found := false
+			var visit func(v ssa.Value, d int)
+			visit = func(v ssa.Value, d int) {
+				if d > 5 || v == nil || found {
+					return
+				}
+				switch x := ir.Resolve(v).(type) {
+				case *ssa.Call:
+					name := ir.CalleeFullName(x)
+					if strings.HasPrefix(name, "sync/atomic.Load") && len(x.Call.Args) == 1 {
+						if fa, ok := x.Call.Args[0].(*ssa.FieldAddr); ok && namedOf(fa.X.Type()) == r.locker {
+							found = true
+							return
+						}
+					}
+					if cal := ir.StaticCallee(x); cal != nil && cal.Signature.Recv() != nil && namedOf(cal.Signature.Recv().Type()) == r.locker && len(cal.Blocks) > 0 {
+						// a Locker method that reads an atomic field (isLocked())
+						ir.Instrs(cal, func(in ssa.Instruction) {
+							if cc, ok := in.(*ssa.Call); ok && strings.HasPrefix(ir.CalleeFullName(cc), "sync/atomic.Load") {
+								found = true
+							}
+						})
+					}
+				case *ssa.BinOp:
+					visit(x.X, d+1)
+					visit(x.Y, d+1)
+				case *ssa.UnOp:
+					visit(x.X, d+1)
+				case *ssa.Phi:
+					for _, e := range x.Edges {
+						visit(e, d+1)
+					}
+				}
+			}
+			visit(v, 0)
+			return found
+		}
+		allGuarded, nArm := true, 0
+		var firstBad ssa.Instruction
+		ir.Instrs(fn, func(in ssa.Instruction) {
+			tc := isTimeoutCall(in)
+			if tc == nil {
+				return
+			}
+			nArm++
+			guarded := false
+			ir.Instrs(fn, func(x ssa.Instruction) {
+				call, ok := x.(*ssa.Call)
+				if !ok || !call.Call.IsInvoke() || call.Call.Method.Name() != "Cancel" {
+					return
+				}
+				isNew := false
+				for _, o := range ir.Origins(call.Call.Value) {
+					if o == ssa.Value(tc) {
+						isNew = true
+					}
+				}
+				if !isNew {
+					return
+				}
+				// the cancellation is controlled by a tenure test: some branch condition between the arming and the
+				// Cancel (facts of the Cancel's block, and the phi-merged conditions feeding them) reads a Locker field
+				for _, f := range ir.Facts(call.Block()) {
+					if lockerLoads(f.StripNot().Cond) {
+						guarded = true
+					}
+				}
+				for _, p := range call.Block().Preds {
+					if iff, ok := p.Instrs[len(p.Instrs)-1].(*ssa.If); ok && lockerLoads(iff.Cond) {
+						guarded = true
+					}
+					for _, pp := range p.Preds {
+						if iff, ok := pp.Instrs[len(pp.Instrs)-1].(*ssa.If); ok && lockerLoads(iff.Cond) && ir.Dominates(tc, iff) {
+							guarded = true
+						}
+					}
+				}
+			})
+			if !guarded {
+				allGuarded = false
+				if firstBad == nil {
+					firstBad = in
+				}
+			}
+		})
+		if nArm > 0 {
+			// one obligation for the routine (every arming site of it): the defect is the missing tenure test of the chain
+			c.Decide("C05.L9", fn, "rearm-without-tenure-test", firstBad, allGuarded,
+				"the renewal arms the next attempt without looking at the tenure: a renewal that is in flight while the holder calls Unlock (its timer has fired, so Unlock's Cancel is a no-op and the timer slot is unchanged) wins the compare-and-swap of the slot and leaves an armed attempt behind after Unlock returned - 'renewal for that tenure dies out ... arms nothing' is broken (the extra attempt reaches the storage half a lease later and fails on the version)")
+		}
+		c.R.Floor("C05.L9", 1)
+	}
 
 	// L7 Unlock cancels the armed timer
 	{
